@@ -126,7 +126,7 @@ fn replay(a: &[String]) -> i32 {
                 (None, Some(sig)) => {
                     let id = std::fs::read_to_string(path)
                         .ok()
-                        .and_then(|t| serde_json::from_str::<J>(&t).ok())
+                        .and_then(|t| vcore::jser::parse_json(t.as_bytes()).ok())
                         .and_then(|j| j["property"].as_str().map(|s| s.to_string()))
                         .unwrap_or_default();
                     println!("FAIL property={id}: the process running this case was killed by signal {sig} (stack exhaustion or abort inside the library)");
@@ -149,7 +149,7 @@ fn replay(a: &[String]) -> i32 {
             return 2;
         }
     };
-    let j: J = match serde_json::from_str(&txt) {
+    let j: J = match vcore::jser::parse_json(txt.as_bytes()) {
         Ok(j) => j,
         Err(e) => {
             eprintln!("{path} is not a replay file: {e}");
@@ -241,7 +241,7 @@ fn run_workers(id: &str, tier: Tier, seed: u64, n: usize, work: &str, timeout: D
             }
             match child.try_wait() {
                 Ok(Some(st)) => {
-                    let j = std::fs::read(&*out).ok().and_then(|b| serde_json::from_slice::<J>(&b).ok());
+                    let j = std::fs::read(&*out).ok().and_then(|b| vcore::jser::parse_json(&b).ok());
                     let hashes = std::fs::read(format!("{out}.hashes"))
                         .map(|b| b.chunks_exact(8).map(|c| u64::from_le_bytes(c.try_into().unwrap())).collect())
                         .unwrap_or_default();
@@ -337,7 +337,7 @@ fn parent(id: &str, rest: &[String]) -> i32 {
         let mut files: Vec<_> = rd.filter_map(|e| e.ok()).map(|e| e.path()).filter(|p| p.extension().map(|x| x == "json").unwrap_or(false)).collect();
         files.sort();
         for p in files {
-            let j: J = match std::fs::read_to_string(&p).ok().and_then(|t| serde_json::from_str(&t).ok()) {
+            let j: J = match std::fs::read(&p).ok().and_then(|t| vcore::jser::parse_json(&t).ok()) {
                 Some(j) => j,
                 None => continue,
             };
@@ -726,7 +726,7 @@ fn trace_dead_worker(
         .stderr(Stdio::null())
         .status();
     let txt = std::fs::read_to_string(format!("{out}.inflight")).map_err(|_| "the re-run did not reach the case".to_string())?;
-    let j: J = serde_json::from_str(&txt).map_err(|e| e.to_string())?;
+    let j: J = vcore::jser::parse_json(txt.as_bytes())?;
     let case = j["case"].clone();
     let msg0 = format!("the checking process is killed while running this case (sub-check {subn}, case #{k} of worker {wi})");
     let p = write_replay(vd, id, &subn, &case, &msg0);
